@@ -30,6 +30,129 @@ def run(ctx):
     ctx.attempt(r3, ctx, F)
     ctx.attempt(r4, ctx, F)
     ctx.attempt(r6, ctx, F)
+    ctx.rule('C14.R7', 'the destination listing the plan looks source paths up in is the scan itself, or the scan minus entries the source does not have', floor=2)
+    ctx.attempt(dst_listing_complete, ctx, F, 'C14.R7')
+
+
+RESTRICTING = ('filter', 'filter_map', 'take_while', 'skip_while', 'skip', 'take', 'step_by', 'retain', 'split_off', 'remove', 'extract_if')
+PASSING = ('collect', 'into_iter', 'iter', 'cloned', 'copied', 'map', 'clone', 'unwrap_or_default', 'unwrap_or', 'unwrap_or_else', 'from_iter', 'to_owned', 'into', 'from', 'branch', 'deref', 'as_ref')
+
+
+def dst_listing_complete(ctx, F, rid):
+    """needs_transfer(src_meta, dst.get(path)) says "absent" for a path whose destination entry was dropped before the plan was
+    built: the file is delivered, dropped from the listing again on the next run, and re-sent for ever.  So between the scan of
+    the destination and build_plan an entry may only be dropped when the SOURCE listing does not have that path (such an entry is
+    never looked up; dropping it only keeps it out of the delete set)."""
+    n = 0
+    for entry in (RUN_LOCAL, RUN_REMOTE):
+        b = work_body(F, entry, ['plan::build_plan'])
+        if b is None:
+            continue
+        fl = flow_of(b)
+        for pb, pt in fl.calls_to('plan::build_plan'):
+            src_sig = {(o.kind, str(o.key), o.bb) for o in fl.origins(pt['args'][0]) if o.kind == 'call'}
+            # walk the destination operand back to the scan, noting the adaptors that can drop entries
+            work, seen_, restrict, scans, unread = [pt['args'][1]], set(), [], set(), []
+            while work and len(seen_) < 200:
+                cur = work.pop()
+                if cur['k'] == 'const':
+                    continue
+                for o in fl.origins(cur, mut_calls=True):
+                    k_ = (o.kind, str(o.key), o.bb)
+                    if k_ in seen_ or o.kind in ('comb', 'agg', 'const'):
+                        continue
+                    seen_.add(k_)
+                    last = str(o.key).split('::')[-1]
+                    if o.kind in ('call', 'mutcall') and str(o.key).startswith('meta::discover_'):
+                        scans.add(k_)
+                    elif o.kind in ('call', 'mutcall') and o.bb is not None and last in RESTRICTING:
+                        restrict.append((o.bb, last))
+                        work.append(b.blocks[o.bb]['term']['args'][0])
+                    elif o.kind in ('call', 'mutcall') and o.bb is not None and last in PASSING:
+                        work.append(b.blocks[o.bb]['term']['args'][0])
+                    elif o.kind in ('call', 'mutcall'):
+                        unread.append(str(o.key))
+            key = '%s:build_plan(dst listing)' % entry.split('::')[-1]
+            n += 1
+            if not restrict:
+                if unread and not scans:
+                    ctx.undecided(rid, '%s: the destination listing handed to build_plan comes out of %s, which is not read' % (entry.split('::')[-1], unread[0].split('::')[-1]))
+                else:
+                    ctx.ok(rid, key, 'the scan of the destination reaches build_plan with every entry', term_loc(b, pb))
+                continue
+            verdicts = []
+            for rbb, kind in restrict:
+                rt = b.blocks[rbb]['term']
+                pred = None
+                for a in rt['args'][1:]:
+                    if a['k'] == 'const':
+                        continue
+                    for o in fl.origins(a):
+                        if o.kind == 'agg' and F.body(str(o.key)) is not None:
+                            pred = F.body(str(o.key))
+                if kind not in ('filter', 'retain') or pred is None:
+                    verdicts.append((None, rbb, 'entries are dropped by `%s`' % kind))
+                    continue
+                pfl = flow_of(pred)
+                # a lookup of the element's path in the captured SOURCE listing
+                lookups = []
+                for lb, lt in pfl.calls(lambda c: c.split('::')[-1] in ('contains_key', 'get') and 'BTreeMap' in c):
+                    mo = [o for o in pfl.origins(lt['args'][0]) if o.kind != 'comb']
+                    is_src = False
+                    for o in mo:
+                        if o.kind == 'upvar' and o.key is not None:
+                            for blk in b.blocks:
+                                for st in blk['stmts']:
+                                    rv = st['rv']
+                                    if rv['k'] == 'agg' and rv.get('ak') == 'closure' and norm(rv['def']) == pred.path and int(o.key) < len(rv['ops']):
+                                        cap = {(x.kind, str(x.key), x.bb) for x in fl.origins(rv['ops'][int(o.key)]) if x.kind == 'call'}
+                                        is_src = is_src or bool(cap & src_sig)
+                    if is_src:
+                        lookups.append(lb)
+                if not lookups:
+                    verdicts.append((False, rbb, 'the predicate does not consult the source listing'))
+                    continue
+                # "the predicate answers false" must imply "the source does not have the path": every value it can return is the
+                # constant true, the lookup's own answer, or a false that sits behind the lookup's negative edge
+                absent = set()
+                for lb in lookups:
+                    oc = pfl.outcomes(lb)
+                    absent |= oc.get('false', set()) | oc.get('None', set())
+                good, unread_ = True, None
+                for (rb_, kind_, data_) in ret_defs(pred):
+                    if kind_ == 'call':
+                        if rb_ in lookups and callee(data_).endswith('contains_key'):
+                            continue
+                        good, unread_ = None, 'it returns the result of %s' % (callee(data_) or '?').split('::')[-1]
+                        continue
+                    rv_ = data_
+                    if rv_['k'] == 'use' and rv_['ops'][0]['k'] == 'const':
+                        v_ = rv_['ops'][0].get('v')
+                        if v_ in (1, True):
+                            continue
+                        if absent and pfl.cfg.edges_guard(absent, rb_):
+                            continue
+                        good, unread_ = None, 'it can answer false on a path that is not behind "the source does not have it"'
+                        continue
+                    if rv_['k'] == 'use' and rv_['ops'][0]['k'] != 'const' and any(o.kind == 'call' and o.bb in lookups for o in pfl.origins(rv_['ops'][0])) and \
+                            all(o.kind == 'call' and o.bb in lookups for o in pfl.origins(rv_['ops'][0]) if o.kind != 'comb'):
+                        continue
+                    good, unread_ = None, 'what it returns is not read'
+                if good:
+                    verdicts.append((True, rbb, 'an entry the source has is always kept'))
+                else:
+                    verdicts.append((None, rbb, 'the predicate consults the source listing, but %s' % unread_))
+            bad = [v for v in verdicts if v[0] is False]
+            und = [v for v in verdicts if v[0] is None]
+            if bad:
+                ctx.bad(rid, key, '%s drops entries from the destination listing before build_plan looks source paths up in it (%s): a source file whose destination entry is dropped '
+                        'counts as absent, is delivered, dropped from the listing again on the next run and re-sent for ever' % (entry.split('::')[-1], bad[0][2]), term_loc(b, bad[0][1]))
+            elif und:
+                ctx.undecided(rid, '%s filters the destination listing before build_plan: %s' % (entry.split('::')[-1], und[0][2]))
+            else:
+                ctx.ok(rid, key, 'entries are dropped from the destination listing only where the source has no such path', term_loc(b, pb))
+    if n == 0:
+        ctx.missing(rid, 'build_plan call sites in run_local / run_remote')
 
 
 def loop_mtime_ok(F, body, arg_op, max_hops=3):
